@@ -22,3 +22,16 @@ Definition chk_engine (t : list (nat * Z * effect)) (ops : list op) (esent : lis
   let e := fold_left (apply_op t) ops (mkE [] [] (-1000000) [] []) in
   pl_eqb (sent e) esent && ln_eqb (map fst (sendq e)) esendq &&
   ln_eqb (map hid (hs e)) (map fst ehandlers) && ln_eqb (map left (hs e)) (map snd ehandlers).
+
+(* the registered handlers after every single iteration (not only at the end): a request that has been answered or has given up
+   must be gone when the iteration that decided it is over *)
+Fixpoint lln_eqb (a b : list (list nat)) : bool :=
+  match a, b with [], [] => true | x :: r, y :: s => ln_eqb x y && lln_eqb r s | _, _ => false end.
+Fixpoint hist t (e : eng) (ops : list op) : list (list nat) :=
+  match ops with
+  | [] => []
+  | o :: r => let e' := apply_op t e o in
+              match o with OIter _ _ => map hid (hs e') :: hist t e' r | _ => hist t e' r end
+  end.
+Definition chk_engine_hist (t : list (nat * Z * effect)) (ops : list op) (ehist : list (list nat)) : bool :=
+  lln_eqb (hist t (mkE [] [] (-1000000) [] []) ops) ehist.
